@@ -104,7 +104,7 @@ func init() {
 		}
 		// the stages behind the parser (expansion, sorting, de-duplication, matching): valid expressions against
 		// generated allowed lists (repeated entries, re-spelled entries, unrelated entries, unsatisfied expressions)
-		for i := 0; i < scale(2500, 40000); i++ {
+		for i := 0; i < scale(2500, 40000) && !timeUp("props_text.go:107"); i++ {
 			c := genTreeCase(4, 6)
 			lists := [][]string{c.allowed, append(append([]string{}, c.allowed...), c.allowed...), {c.allowed[0], c.allowed[0]},
 				{c.allowed[0], strings.ToLower(c.allowed[0]), "MIT", "mit"}}
@@ -339,7 +339,7 @@ func init() {
 	props["C04"] = func() {
 		res.Rule = "strings: generated valid expressions (single terms and compounds), their random mutations (truncation, deletion, insertion, duplication, tight joining, byte substitution) and fixed edge cases; each is given to ValidateLicenses, ExtractLicenses, Satisfies (both argument positions). Lists: length 0-12 mixing valid, invalid, compound and repeated entries. Non-trivial & distinct = distinct strings"
 		n := scale(10000, 120000)
-		for i := 0; i < n; i++ {
+		for i := 0; i < n && !timeUp("props_text.go:342"); i++ {
 			var s string
 			compound := -1
 			switch rng.Intn(4) {
@@ -405,7 +405,7 @@ func init() {
 				return genValidTerm().text
 			}
 		}
-		for i := 0; i < scale(2500, 25000); i++ {
+		for i := 0; i < scale(2500, 25000) && !timeUp("props_text.go:408"); i++ {
 			var l []string
 			n := rng.Intn(13)
 			if i%25 == 0 {
@@ -765,7 +765,7 @@ func init() {
 			}
 			return s
 		}
-		for i := 0; i < scale(8000, 150000); i++ {
+		for i := 0; i < scale(8000, 150000) && !timeUp("props_text.go:768"); i++ {
 			s := fromTree(genTree(1+rng.Intn(3), 3), "", false)
 			switch rng.Intn(4) {
 			case 0:
@@ -938,7 +938,7 @@ func init() {
 		unknowns := []string{"FOO", "foo-1.0", "X", "GPL-9.9", "MIT-or-later-x", "Apache-2.0-only-only", "NOT.A.LICENSE", "and", "with", "GPL-2.0-or-later-or-later", "-", "."}
 		strays := []string{"!", "_", "\xff", "\xc3\xa9", "\t", "/", "*", "\x00", "~", "é"}
 		n := scale(12000, 200000)
-		for i := 0; i < n; i++ {
+		for i := 0; i < n && !timeUp("props_text.go:941"); i++ {
 			c := genTreeCase(3, 4)
 			toks := strings.Fields(c.text)
 			var prefix string
